@@ -126,6 +126,7 @@ more("C13", "(seventh round) the math.Modf overlay evaluated on representatives 
 
 # eighth round
 more("C01", "(eighth round) left-hand operands of a parallel assignment are stored in temporaries before the right-hand sides are evaluated.")
+more("C01", "(eighth round) two-operand expression templates evaluate the left operand first and unconditionally (hoisted arguments count in argument order).")
 more("C02", "(eighth round) each dispatch line of a flattened if/switch ladder follows the translation of its own condition; the recovered branch of $callDeferred does not return.")
 more("C04", "(eighth round) code that can name types of later-loaded packages is emitted inside $finishSetup.")
 more("C08", "(eighth round) panic values of the runtime overlay have RuntimeError(); remaining deferred calls run after a resumed recovery.")
